@@ -158,6 +158,7 @@ def standard_plan(ctx, visitor, depths_quick=(8, 7, 6, 5, 5), depths_thorough=(1
         tasks += list(tree_tasks(dict(N=N, r=2.0, box=boxes[0], constraints=2), "A013", d, visitor, split=2))
         if N >= 2:
             tasks += list(tree_tasks(dict(N=N, r=2.0, box="B1", probe=True), "A013", d, visitor, split=2))
+            tasks += list(tree_tasks(dict(N=N, r=2.0, box="B1", startPoint=True), "A013", d - 1, visitor, split=2))
     if long_runs:
         envs = ("abs13", "const", "lin", "stair")
         # into the resolution horizon: monotone / V-shaped objectives iterated until doubles cannot split the interval
